@@ -3,7 +3,7 @@
 patch.diff, demo.rs, notes.md, meta.json (what it breaks, what it needs, what was run, which checks catch it)"""
 import json, os, re, shutil, subprocess, sys
 V = os.path.dirname(os.path.dirname(os.path.abspath(__file__)))
-ROUNDS = [('/tmp/seed', ''), ('/tmp/seed2', 'r2'), ('/tmp/seed3', 'r3'), ('/tmp/seed4', 'r4')]
+ROUNDS = [('/tmp/seed', ''), ('/tmp/seed2', 'r2'), ('/tmp/seed3', 'r3'), ('/tmp/seed4', 'r4'), ('/tmp/seed5', 'r5')]
 OUT = os.path.join(V, 'seeded')
 MATRIX = '/var/tmp/tau-seed-out'
 
@@ -62,6 +62,8 @@ def main():
             feats = ''
             if P == 'C15':
                 feats = '--features ignore_case'
+            if '--features sync' in notes or 'features sync' in notes:
+                feats = '--features sync'
             if '--features json' in notes or 'features json' in notes or 'feature json' in notes or '`json` feature' in notes:
                 feats = '--features json'
             suite_ok, demo_fail, demo_pass, log = confirm(wt, sd, feats)
